@@ -165,7 +165,11 @@ def chk_mp_bc(c):
     kvs = tuple(bspline.make_knots(c['p'], 0.0, 1.0, n) for n in c['n'])
     offs = [(0, 0), (1, 0), (0, 1)] if c['shape'] == 'L' else [(0, 0), (1, 0), (0, 1), (1, 1)]
     geos = [geometry.unit_square().translate((float(a), float(b))) for (a, b) in offs]
-    MP = assemble.Multipatch([(kvs, g) for g in geos], automatch=True)
+    # conforming but different patches: the x knot vector depends on the column, the y knot vector on the row
+    pk = [kvs] * len(offs)
+    if c.get('hetero'):
+        pk = [(bspline.make_knots(c['p'], 0.0, 1.0, c['n'][0] + b), bspline.make_knots(c['p'], 0.0, 1.0, c['n'][1] + 2 * a)) for (a, b) in offs]
+    MP = assemble.Multipatch([(k_, g) for k_, g in zip(pk, geos)], automatch=True)
     lin = lambda x, y: 1.0 + x + 2.0 * y
     conds = [(p, face) for p in range(len(geos)) for face in ('left', 'right', 'bottom', 'top')]
     # keep only faces on the outer boundary of the union (an interface face is not a Dirichlet face)
@@ -181,10 +185,9 @@ def chk_mp_bc(c):
     assert len(set(idx.tolist())) == len(idx), 'a global dof is listed twice'
     ug = np.zeros(MP.numdofs)
     ug[idx] = val
-    N = tuple(kv.numdofs for kv in kvs)
     expected = set()
     for (p, face) in conds:
-        li, lv = assemble.compute_dirichlet_bc(kvs, geos[p], face, lin)
+        li, lv = assemble.compute_dirichlet_bc(pk[p], geos[p], face, lin)
         up = MP.global_to_patch(p) @ ug
         assert np.allclose(up[li], lv, atol=1e-12), 'patch %d face %s: prescribed values are not the boundary data (max error %g)' % (p, face, np.max(np.abs(up[li] - lv)))
         expected |= set(np.asarray(MP.patch_to_global_idx(p))[li].tolist())
@@ -243,7 +246,7 @@ CHECKS = {'mp_bc': chk_mp_bc, 'bc1d': chk_bc1d, 'restricted': chk_restricted, 's
 def generate(tier, rng):
     quick = tier == 'quick'
     for k in range(12 if quick else 60):
-        yield 'mp_bc', {'seed': k, 'p': 1 + k % 3, 'n': [3 + k % 2, 4], 'shape': ['L', 'square'][k % 2], 'ncond': 3 + k % 6}
+        yield 'mp_bc', {'seed': k, 'p': 1 + k % 3, 'n': [3 + k % 2, 4], 'shape': ['L', 'square'][k % 2], 'ncond': 3 + k % 6, 'hetero': bool(k % 3)}
     seed = 0
     for n in range(1, 5 if quick else 6):
         for r in range(0, n + 1):
